@@ -1,4 +1,4 @@
-import RV.Proofs.TreeInv
+import RV.Proofs.TreeGeo
 /-!
 # `Tree.Set`: invariant preservation and the association-list semantics
 
@@ -215,11 +215,12 @@ theorem leafSet_spec {cfg : Cfg} (hc : CfgOk cfg) (p : Nat) (es : List (Key × V
       okNode cfg.maxKeys cfg.maxKeys (.leaf p (ins es k v)) lo hi ∧
       (leafSet cfg p es k v a).2.nextPage = a.nextPage ∧ (leafSet cfg p es k v a).2.free = a.free ∧
       (leafSet cfg p es k v a).2.pagesFree = a.pagesFree ∧
-      (leafSet cfg p es k v a).2.leafKeys = a.leafKeys + (((ins es k v).length : Int) - es.length) := by
+      (leafSet cfg p es k v a).2.leafKeys = a.leafKeys + (((ins es k v).length : Int) - es.length) ∧
+      (leafSet cfg p es k v a).2.dataLen = a.dataLen ∧ (leafSet cfg p es k v a).2.curSz = a.curSz := by
   have hlen : es.length < cfg.maxKeys := by have := h.2.2; have := hc.ge4; omega
   unfold leafSet
   rw [nodeSet_eq_ins cfg.maxKeys es k v lo h.1 hk1 (by have := hc.lt; omega) (Or.inl hlen)]
-  refine ⟨rfl, ha, ⟨ins_sorted h.1 hk1 v, ins_lastKeyIs h.2.1 h.1 hk2 v, ?_⟩, rfl, rfl, rfl, ?_⟩
+  refine ⟨rfl, ha, ⟨ins_sorted h.1 hk1 v, ins_lastKeyIs h.2.1 h.1 hk2 v, ?_⟩, rfl, rfl, rfl, ?_, rfl, rfl⟩
   · rw [ins_length es k v lo h.1]; split <;> omega
   · simp only
     rw [ins_length es k v lo h.1]; split <;> simp <;> omega
@@ -268,7 +269,8 @@ theorem afterChild_spec {cfg : Cfg} (hc : CfgOk cfg) (ki lo : Key) (c : Node) (a
       Cons a (afterChild cfg ki c a).2.1 (pids c)
         (pids (afterChild cfg ki c a).1 ++ spPids (afterChild cfg ki c a).2.2) ∧
       (afterChild cfg ki c a).2.1.leafKeys = a.leafKeys ∧
-      countLeafKeys (afterChild cfg ki c a).1 + spCount (afterChild cfg ki c a).2.2 = countLeafKeys c := by
+      countLeafKeys (afterChild cfg ki c a).1 + spCount (afterChild cfg ki c a).2.2 = countLeafKeys c ∧
+      Geo cfg a (afterChild cfg ki c a).2.1 := by
   have hmk := hc.lt
   have hge := hc.ge4
   have hlen := okNode_len h
@@ -288,7 +290,7 @@ theorem afterChild_spec {cfg : Cfg} (hc : CfgOk cfg) (ki lo : Key) (c : Node) (a
       obtain ⟨s1, s2, s3, s4, s5⟩ := split_sorted (by omega) hl h.1 h.2.1
       dsimp only
       rw [splitLeft_eq es (by omega), splitRight_eq es (by omega) hl]
-      refine ⟨by rw [hf]; exact ha, ⟨rfl, rfl, lastKeyD 0#64 (es.take (cfg.maxKeys / 2)), ⟨s1, s2, hlL⟩, ⟨s3, s4, hlR⟩, ?_, ?_, happ⟩, ?_, ?_, ?_⟩
+      refine ⟨by rw [hf]; exact ha, ⟨rfl, rfl, lastKeyD 0#64 (es.take (cfg.maxKeys / 2)), ⟨s1, s2, hlL⟩, ⟨s3, s4, hlR⟩, ?_, ?_, happ⟩, ?_, ?_, ?_, newNode_geo cfg a⟩
       · exact maxKey_eq _ (by omega)
       · show maxKey (es.drop (cfg.maxKeys / 2)) = ki
         rw [maxKey_eq _ (by omega)]; exact s4.2
@@ -309,7 +311,7 @@ theorem afterChild_spec {cfg : Cfg} (hc : CfgOk cfg) (ki lo : Key) (c : Node) (a
       rw [okEnts_append, s5] at hoe
       dsimp only
       rw [splitLeft_eq es (by omega), splitRight_eq es (by omega) hl]
-      refine ⟨by rw [hf]; exact ha, ⟨rfl, rfl, lastKeyD 0#64 (es.take (cfg.maxKeys / 2)), ⟨hoe.1, s2, hlL⟩, ⟨hoe.2, s4, hlR⟩, ?_, ?_, ?_⟩, ?_, ?_, ?_⟩
+      refine ⟨by rw [hf]; exact ha, ⟨rfl, rfl, lastKeyD 0#64 (es.take (cfg.maxKeys / 2)), ⟨hoe.1, s2, hlL⟩, ⟨hoe.2, s4, hlR⟩, ?_, ?_, ?_⟩, ?_, ?_, ?_, newNode_geo cfg a⟩
       · exact maxKey_eq _ (by omega)
       · show maxKey (es.drop (cfg.maxKeys / 2)) = ki
         rw [maxKey_eq _ (by omega)]; exact s4.2
@@ -325,7 +327,7 @@ theorem afterChild_spec {cfg : Cfg} (hc : CfgOk cfg) (ki lo : Key) (c : Node) (a
       · simp only [spCount, countLeafKeys]
         rw [← countLeafKeysEnts_append, happ]
   · simp only [hfull, decide_false, Bool.false_eq_true, if_false]
-    exact ⟨ha, ⟨okNode_of_len h (by omega), rfl⟩, ⟨Nat.le_refl _, fun x => by simp [spPids], rfl⟩, by first | rfl | trivial, by simp [spCount]⟩
+    exact ⟨ha, ⟨okNode_of_len h (by omega), rfl⟩, ⟨Nat.le_refl _, fun x => by simp [spPids], rfl⟩, by first | rfl | trivial, by simp [spCount], Geo.same rfl rfl rfl⟩
 
 /-! ## `Tree.set`, by mutual induction over the tree -/
 
@@ -357,12 +359,13 @@ theorem setNode_spec {cfg : Cfg} (hc : CfgOk cfg) : ∀ (n : Node) (lo hi k : Ke
       (setNode cfg n k v a).1.isLeafC = n.isLeafC ∧
       Cons a (setNode cfg n k v a).2 (pids n) (pids (setNode cfg n k v a).1) ∧
       (setNode cfg n k v a).2.leafKeys - a.leafKeys =
-        (countLeafKeys (setNode cfg n k v a).1 : Int) - countLeafKeys n
+        (countLeafKeys (setNode cfg n k v a).1 : Int) - countLeafKeys n ∧
+      Geo cfg a (setNode cfg n k v a).2
   | .null, _, _, _, _, _, h, _, _, _ => absurd h id
   | .leaf p es, lo, hi, k, v, a, h, hk1, hk2, ha => by
-    obtain ⟨e1, e2, e3, e4, e5, e6, e7⟩ := leafSet_spec hc p es lo hi k v a h hk1 hk2 ha
+    obtain ⟨e1, e2, e3, e4, e5, e6, e7, e8, e9⟩ := leafSet_spec hc p es lo hi k v a h hk1 hk2 ha
     rw [setNode]
-    refine ⟨e2, by rw [e1]; exact e3, by rw [e1]; rfl, by rw [e1]; rfl, by rw [e1]; rfl, ?_, ?_⟩
+    refine ⟨e2, by rw [e1]; exact e3, by rw [e1]; rfl, by rw [e1]; rfl, by rw [e1]; rfl, ?_, ?_, Geo.same e4 e8 e9⟩
     · rw [e1]; exact Cons.same e4 e5 e6 _
     · have hl1 : es.length < 2 ^ 32 := by have := h.2.2; have := hc.lt; omega
       have hl2 : (ins es k v).length < 2 ^ 32 := by have := e3.2.2; have := hc.lt; omega
@@ -387,7 +390,7 @@ theorem setNode_spec {cfg : Cfg} (hc : CfgOk cfg) : ∀ (n : Node) (lo hi k : Ke
             exact ⟨e, List.mem_cons_of_mem _ he, hee⟩
       obtain ⟨e, he, hee⟩ := this
       exact ⟨e, he, by rw [hee]; exact hk2⟩
-    obtain ⟨l, ki, c, r, c', a1, sp, heq, hes, hf, hlt, hle, hpost, hcons, hlk⟩ :=
+    obtain ⟨l, ki, c, r, c', a1, sp, heq, hes, hf, hlt, hle, hpost, hcons, hlk, hgeo⟩ :=
       setEnts_spec hc es lo k v a h.1 hk1 hex ha
     -- the up-front panic test
     have hidx : setIdxPanic (w (search es k)) (w cfg.maxKeys) = false := by
@@ -415,7 +418,7 @@ theorem setNode_spec {cfg : Cfg} (hc : CfgOk cfg) : ∀ (n : Node) (lo hi k : Ke
     cases sp with
     | none =>
       obtain ⟨p1, p2⟩ := hpost
-      refine ⟨hf, ⟨okEnts_append.mpr ⟨hoe.1, p1, hoe.2.2⟩, ⟨by simp, ?_⟩, ?_⟩, ?_, rfl, rfl, ?_, ?_⟩
+      refine ⟨hf, ⟨okEnts_append.mpr ⟨hoe.1, p1, hoe.2.2⟩, ⟨by simp, ?_⟩, ?_⟩, ?_, rfl, rfl, ?_, ?_, hgeo⟩
       · rw [lastKeyD_replace]; exact hlast
       · simp at hlen ⊢; omega
       · rw [toList, toList, hflat, toListEnts_append, toListEnts, p2]
@@ -439,7 +442,7 @@ theorem setNode_spec {cfg : Cfg} (hc : CfgOk cfg) : ∀ (n : Node) (lo hi k : Ke
         rw [p1]; simp; bv_omega
       simp only [p5, p6, q1, q2]
       simp only [hcond, if_true]
-      refine ⟨hf, ⟨okEnts_append.mpr ⟨hoe.1, p3, p4, hoe.2.2⟩, ⟨by simp, ?_⟩, ?_⟩, ?_, rfl, rfl, ?_, ?_⟩
+      refine ⟨hf, ⟨okEnts_append.mpr ⟨hoe.1, p3, p4, hoe.2.2⟩, ⟨by simp, ?_⟩, ?_⟩, ?_, rfl, rfl, ?_, ?_, hgeo⟩
       · rw [lastKeyD_append] at hlast ⊢; exact hlast
       · simp at hlen ⊢; omega
       · rw [toList, toList, hflat, toListEnts_append, toListEnts, toListEnts, ← p7]
@@ -458,7 +461,8 @@ theorem setEnts_spec {cfg : Cfg} (hc : CfgOk cfg) : ∀ (es : List (Key × Node)
       a1.fault = none ∧ (∀ e ∈ l, e.1 < k) ∧ k ≤ ki ∧
       ChildPost cfg.maxKeys (lastKeyD lo l) ki (ins (toList c) k v) c' sp ∧
       Cons a a1 (pids c) (pids c' ++ spPids sp) ∧
-      a1.leafKeys - a.leafKeys = ((countLeafKeys c' + spCount sp : Nat) : Int) - countLeafKeys c
+      a1.leafKeys - a.leafKeys = ((countLeafKeys c' + spCount sp : Nat) : Int) - countLeafKeys c ∧
+      Geo cfg a a1
   | [], _, _, _, _, _, _, hex, _ => by obtain ⟨e, he, _⟩ := hex; cases he
   | (ki, c) :: rest, lo, k, v, a, h, hk1, hex, ha => by
     by_cases hhit : searchHit ki k = true
@@ -470,7 +474,7 @@ theorem setEnts_spec {cfg : Cfg} (hc : CfgOk cfg) : ∀ (es : List (Key × Node)
       refine ⟨[], ki, c, rest, (afterChild cfg ki (setNode cfg c k v a).1 (setNode cfg c k v a).2).1,
         (afterChild cfg ki (setNode cfg c k v a).1 (setNode cfg c k v a).2).2.1,
         (afterChild cfg ki (setNode cfg c k v a).1 (setNode cfg c k v a).2).2.2, ?_, rfl, hac.1, by simp, hk, ?_,
-        hn.2.2.2.2.2.1.trans hac.2.2.1, ?_⟩
+        hn.2.2.2.2.2.1.trans hac.2.2.1, ?_, hn.2.2.2.2.2.2.2.trans hac.2.2.2.2.2⟩
       · cases c with
         | null => exact absurd h.1 id
         | leaf q es' => rw [setEnts.eq_def]; simp only [hhit, hslot, if_true, Bool.false_eq_true, if_false]; rfl
@@ -478,9 +482,9 @@ theorem setEnts_spec {cfg : Cfg} (hc : CfgOk cfg) : ∀ (es : List (Key × Node)
       · have := hac.2.1
         rw [hn.2.2.1] at this
         exact this
-      · have h1 := hn.2.2.2.2.2.2
+      · have h1 := hn.2.2.2.2.2.2.1
         have h2 := hac.2.2.2.1
-        have h3 := hac.2.2.2.2
+        have h3 := hac.2.2.2.2.1
         omega
     · have hk : ki < k := by
         have : ¬ k ≤ ki := by
@@ -491,9 +495,9 @@ theorem setEnts_spec {cfg : Cfg} (hc : CfgOk cfg) : ∀ (es : List (Key × Node)
         rcases List.mem_cons.mp he with rfl | he
         · exact absurd hke (by simp at hk ⊢; bv_omega)
         · exact ⟨e, he, hke⟩
-      obtain ⟨l, ki', c0, r, c', a1, sp, heq, hes, hf, hlt, hle, hpost, hcons, hlk⟩ :=
+      obtain ⟨l, ki', c0, r, c', a1, sp, heq, hes, hf, hlt, hle, hpost, hcons, hlk, hgeo⟩ :=
         setEnts_spec hc rest ki k v a h.2 hk hex' ha
-      refine ⟨(ki, c) :: l, ki', c0, r, c', a1, sp, ?_, by rw [hes]; rfl, hf, ?_, hle, hpost, hcons, hlk⟩
+      refine ⟨(ki, c) :: l, ki', c0, r, c', a1, sp, ?_, by rw [hes]; rfl, hf, ?_, hle, hpost, hcons, hlk, hgeo⟩
       · rw [setEnts.eq_def]; simp only [hhit, Bool.false_eq_true, if_false, heq]; rfl
       · intro e he
         rcases List.mem_cons.mp he with rfl | he
@@ -545,11 +549,11 @@ theorem set_spec {cfg : Cfg} (hc : CfgOk cfg) (t : Tree) (k : Key) (v : Val) (hi
       Cons t.a (set cfg t k v).a (pids t.root) (pids (set cfg t k v).root) ∧
       (set cfg t k v).a.leafKeys - t.a.leafKeys =
         (countLeafKeys (set cfg t k v).root : Int) - countLeafKeys t.root ∧
-      (set cfg t k v).root.pid = t.root.pid := by
+      (set cfg t k v).root.pid = t.root.pid ∧ Geo cfg t.a (set cfg t k v).a := by
   have hmk := hc.lt
   have hge := hc.ge4
   obtain ⟨hk1, hk2⟩ := legal_key hk
-  obtain ⟨n1, n2, n3, n4, n5, n6, n7⟩ := setNode_spec hc t.root 0#64 absoluteMax k v t.a hinv.ok hk1 hk2 hinv.nofault
+  obtain ⟨n1, n2, n3, n4, n5, n6, n7, n8⟩ := setNode_spec hc t.root 0#64 absoluteMax k v t.a hinv.ok hk1 hk2 hinv.nofault
   unfold set
   simp only [hk, Bool.false_eq_true, if_false]
   have hlen := okNode_len n2
@@ -560,7 +564,7 @@ theorem set_spec {cfg : Cfg} (hc : CfgOk cfg) (t : Tree) (k : Key) (v : Val) (hi
     have hkind : (setNode cfg t.root k v t.a).1.isLeafC = false := by rw [n5]; exact hinv.root_inner
     generalize hr : setNode cfg t.root k v t.a = res at *
     obtain ⟨root, a⟩ := res
-    simp only at n1 n2 n3 n4 n6 n7 hfull hkind hlen ⊢
+    simp only at n1 n2 n3 n4 n6 n7 n8 hfull hkind hlen ⊢
     cases root with
     | null => exact absurd n2 id
     | leaf q es => simp [Node.isLeafC] at hkind
@@ -603,7 +607,7 @@ theorem set_spec {cfg : Cfg} (hc : CfgOk cfg) (t : Tree) (k : Key) (v : Val) (hi
         simp [ins, n1', n2']
       simp only [e1, e2]
       simp only [beq_self_eq_true, if_true]
-      refine ⟨⟨rfl, ⟨⟨hokL _, hokR _, trivial⟩, ⟨by simp, rfl⟩, by simp; omega⟩, ?_⟩, ?_, ?_, ?_, n4⟩
+      refine ⟨⟨rfl, ⟨⟨hokL _, hokR _, trivial⟩, ⟨by simp, rfl⟩, by simp; omega⟩, ?_⟩, ?_, ?_, ?_, n4, (n8.trans (newNode_geo cfg a)).trans (newNode_geo cfg _)⟩
       · rw [newNode_fault, newNode_fault]; exact n1
       · rw [← n3, toList, toList, toListEnts, toListEnts, toListEnts, toList, toList, List.append_nil,
           ← toListEnts_append, happ]
@@ -622,6 +626,6 @@ theorem set_spec {cfg : Cfg} (hc : CfgOk cfg) (t : Tree) (k : Key) (v : Val) (hi
         omega
   · simp only [hfull, decide_false, Bool.false_eq_true, if_false]
     have hl2 : (setNode cfg t.root k v t.a).1.len ≤ cfg.maxKeys - 1 := by omega
-    exact ⟨⟨by rw [n5]; exact hinv.root_inner, okNode_of_len n2 hl2, n1⟩, n3, n6, n7, n4⟩
+    exact ⟨⟨by rw [n5]; exact hinv.root_inner, okNode_of_len n2 hl2, n1⟩, n3, n6, n7, n4, n8⟩
 
 end RV.Tree
